@@ -219,6 +219,36 @@ func (d *discharger) dischargeBounds(s panicSite) (bool, string) {
 			}
 			return false, "slice by a Consume* length that is not sign-checked or applies to a different buffer"
 		}
+		// (a') the advance helper of a decoder cursor: r.F = r.F[n:] with n a parameter that every call site obtains from
+		// protowire.Consume*(r.F) on the same receiver in the same block
+		if x.High == nil && x.Max == nil && x.Low != nil {
+			if p, isParam := x.Low.(*ssa.Parameter); isParam && p.Parent() == s.fn {
+				j := -1
+				for i, q := range s.fn.Params {
+					if q == p {
+						j = i
+					}
+				}
+				if adv := c.advanceHelper(s.fn, j); adv != nil {
+					ncs, okAll := 0, true
+					for _, e := range c.G.In[s.fn] {
+						cs, isCall := e.Site.(*ssa.Call)
+						if !isCall || cs.Call.StaticCallee() != s.fn || j >= len(cs.Call.Args) {
+							continue
+						}
+						ncs++
+						fw := c.consumeForwarder(e.Caller)
+						if fw == nil || fw.adv == nil || fw.adv.fn != s.fn {
+							okAll = false
+						}
+					}
+					if ncs > 0 && okAll {
+						return true, fmt.Sprintf("advance helper: the length is sign-tested here and at all %d call site(s) it is the length protowire.Consume* returned for this very buffer field (0<=n<=len by protowire's contract)", ncs)
+					}
+					return false, "advance helper called with a length that is not the result of protowire.Consume* on the same buffer"
+				}
+			}
+		}
 		// (b) len dominance for x[lo:]
 		if x.High == nil && x.Max == nil && x.Low != nil {
 			upper := c.leLenGuard(x.Block(), x.Low, x.X, false) && c.noInterveningStore(s.fn, x, x.Low)
@@ -407,6 +437,13 @@ func (d *discharger) precondition(s panicSite) (ok bool, why string, listed bool
 				return okc, whyc, true
 			}
 		}
+		// Case B': name[pad:] inside a closure that a factory function returns, with pad the factory's parameter
+		if fac, pi := closureFactoryParam(s.fn, x.Low); fac != nil {
+			d.trFactory, d.trFactoryIdx = fac, pi
+			okc, whyc := d.padChain(s.fn, nil)
+			d.trFactory = nil
+			return okc, whyc, true
+		}
 	case *ssa.IndexAddr:
 		// Case C: hashBits.next indexing
 		if okc, whyc, l := d.hashBitsFact(s, x); l {
@@ -488,7 +525,7 @@ func (d *discharger) padChain(site *ssa.Function, padField *types.Var) (bool, st
 					continue
 				}
 				if _, isAlloc := base.(*ssa.Alloc); !isAlloc {
-					if fv == itrPad || fv == trStruct {
+					if fv == itrPad || (trStruct != nil && fv == trStruct) {
 						return false, fmt.Sprintf("pad field %s is written outside a constructor literal at %s", fv.Name(), c.P.Pos(st.Pos()))
 					}
 					continue
@@ -527,9 +564,18 @@ func (d *discharger) padChain(site *ssa.Function, padField *types.Var) (bool, st
 						return false, fmt.Sprintf("iterator at %s validates links with the pad of %s but iterates %s", c.P.Pos(st.Pos()), shortPath(got), shortPath(want))
 					}
 				}
-				if fv == trStruct {
+				if trStruct != nil && fv == trStruct {
 					nTrAlloc++
 					trPadVals = append(trPadVals, st.Val)
+				}
+			}
+		}
+		// transformer made by a factory function: the pad is the argument of each call of the factory
+		if d.trFactory != nil {
+			for _, ci := range core.CallsIn(fn) {
+				if call, ok := ci.(*ssa.Call); ok && call.Call.StaticCallee() == d.trFactory && d.trFactoryIdx < len(call.Call.Args) {
+					nTrAlloc++
+					trPadVals = append(trPadVals, call.Call.Args[d.trFactoryIdx])
 				}
 			}
 		}
@@ -949,7 +995,38 @@ func (d *discharger) bitIndexInRange(fn *ssa.Function, at ssa.Instruction, bf, i
 }
 
 func (d *discharger) bitIndexFromNext(fn *ssa.Function, at *ssa.Call, shard, idx ssa.Value) (bool, string) {
+	return d.bitIndexFromNextD(fn, at, shard, idx, 0)
+}
+
+func (d *discharger) bitIndexFromNextD(fn *ssa.Function, at *ssa.Call, shard, idx ssa.Value, depth int) (bool, string) {
 	c := d.c
+	// the index and the shard are handed through an unexported helper unchanged: decide at its call sites
+	if p, isParam := idx.(*ssa.Parameter); isParam && p.Parent() == fn && depth < 3 && len(fn.Params) > 0 && shard == ssa.Value(fn.Params[0]) && (fn.Object() == nil || !fn.Object().Exported()) {
+		pi := -1
+		for i, q := range fn.Params {
+			if q == p {
+				pi = i
+			}
+		}
+		n := 0
+		for _, e := range c.G.In[fn] {
+			cs, ok := e.Site.(*ssa.Call)
+			if e.Caller.Synthetic != "" && len(c.G.In[e.Caller]) == 0 {
+				continue
+			}
+			if !ok || cs.Call.StaticCallee() != fn || pi < 0 || pi >= len(cs.Call.Args) {
+				return false, "called indirectly"
+			}
+			n++
+			if ok2, why := d.bitIndexFromNextD(e.Caller, cs, cs.Call.Args[0], cs.Call.Args[pi], depth+1); !ok2 {
+				return false, why
+			}
+		}
+		if n > 0 {
+			return true, ""
+		}
+		return false, "no call sites"
+	}
 	ex, ok := idx.(*ssa.Extract)
 	if !ok {
 		return false, "index is not the result of the bit reader"
@@ -1348,6 +1425,34 @@ func (c *Ctx) classifyLoop(fn *ssa.Function, h *ssa.BasicBlock) (bool, string) {
 			}
 		}
 	}
+	// (3') cursor decoder loop: the header tests r.done() (len(r.F)==0) and every cycle passes a consume forwarder on
+	// the same cursor (each consumes at least one byte or reports an error that R9/R12-style propagation ends the loop with)
+	if iffc := core.BlockIf(h); iffc != nil {
+		cond := iffc.Cond
+		if u, ok := cond.(*ssa.UnOp); ok && u.Op == token.NOT {
+			cond = u.X
+		}
+		if dc, ok := cond.(*ssa.Call); ok {
+			if fld, _, isDone := c.cursorDoneMethod(dc.Call.StaticCallee()); isDone && len(dc.Call.Args) == 1 {
+				cur := dc.Call.Args[0]
+				if everyCyclePasses(h, body, func(ins ssa.Instruction) bool {
+					cl, ok := ins.(*ssa.Call)
+					if !ok || len(cl.Call.Args) == 0 || cl.Call.Args[0] != cur {
+						return false
+					}
+					fw := c.forwarderOfCall(cl)
+					if fw == nil || fw.field != fld {
+						return false
+					}
+					// a failed consume (no progress) must end the loop: its error is returned
+					probs, noErr, complete := core.CheckErrPropagated(fn, cl)
+					return complete && !noErr && len(probs) == 0
+				}) {
+					return true, "cursor decoder loop: every iteration passes a consume forwarder of the cursor whose exhaustion ends the loop"
+				}
+			}
+		}
+	}
 	// (5) shrinking-width loop: a loop-carried integer i is reduced on every back edge by a step k with 1 <= k (a positive
 	// constant, or 8 - x%8) and every cycle first passes `i < k` (or `i <= k`) whose true edge leaves the loop
 	posStep := func(k ssa.Value) bool {
@@ -1685,7 +1790,13 @@ func (c *Ctx) mayReturnNilOK(fn *ssa.Function) []int {
 					continue
 				}
 			}
-			if core.IsNilConst(rr[i]) && (errIdx < 0 || core.IsNilConst(rr[errIdx])) {
+			if core.IsNilConst(rr[i]) && (errIdx < 0 || core.IsNilConst(rr[errIdx]) || !(core.ErrKnownNonNil(rr[errIdx], nil) || core.GuardedBy(ret.Block(), func(cond ssa.Value) (bool, bool) {
+				x, trueMeansNil, ok := core.NilCmp(cond)
+				if !ok || x != rr[errIdx] {
+					return false, false
+				}
+				return !trueMeansNil, true
+			}))) {
 				out = append(out, i)
 				break
 			}
@@ -1839,4 +1950,68 @@ func isCounterFromNonNeg(v ssa.Value) bool {
 		}
 	}
 	return len(phi.Edges) > 0
+}
+
+// closureFactoryParam: v (a slice bound inside closure cl) is the captured parameter of the function that creates and
+// returns cl; returns that factory and the parameter index.
+func closureFactoryParam(cl *ssa.Function, v ssa.Value) (*ssa.Function, int) {
+	par := cl.Parent()
+	if par == nil {
+		return nil, -1
+	}
+	var fvr *ssa.FreeVar
+	switch x := v.(type) {
+	case *ssa.FreeVar:
+		fvr = x
+	case *ssa.UnOp:
+		if x.Op == token.MUL {
+			fvr, _ = x.X.(*ssa.FreeVar)
+		}
+	}
+	if fvr == nil {
+		return nil, -1
+	}
+	idx := -1
+	for i, f := range cl.FreeVars {
+		if f == fvr {
+			idx = i
+		}
+	}
+	if idx < 0 {
+		return nil, -1
+	}
+	for _, b := range par.Blocks {
+		for _, ins := range b.Instrs {
+			mc, ok := ins.(*ssa.MakeClosure)
+			if !ok || mc.Fn != ssa.Value(cl) || idx >= len(mc.Bindings) {
+				continue
+			}
+			bound := mc.Bindings[idx]
+			var p *ssa.Parameter
+			switch y := bound.(type) {
+			case *ssa.Parameter:
+				p = y
+			case *ssa.Alloc:
+				n := 0
+				for _, ref := range *y.Referrers() {
+					if st, ok := ref.(*ssa.Store); ok && st.Addr == ssa.Value(y) {
+						n++
+						p, _ = st.Val.(*ssa.Parameter)
+					}
+				}
+				if n != 1 {
+					p = nil
+				}
+			}
+			if p == nil {
+				return nil, -1
+			}
+			for i, q := range par.Params {
+				if q == p {
+					return par, i
+				}
+			}
+		}
+	}
+	return nil, -1
 }
